@@ -40,11 +40,16 @@ def single_item_script(g):
     # a handful of keys that the script keeps coming back to (overwrite, delete then re-put, update of an existing
     # item, shrinking attribute sets), plus the occasional key from the whole key space
     pool = [g.key_of(t["schema"]) for _ in range(r.randrange(2, 5))]
+    kattr = [a for a, ty in [t["schema"]["hash"]] + ([t["schema"]["range"]] if t["schema"]["range"] else []) if ty != "S"]
+    retype_at = r.randrange(6, 20) if kattr and r.random() < 0.4 else -1
     def pick(exact=True):
         return dict(r.choice(pool)) if r.random() < 0.8 else g.key_of(t["schema"], exact=exact)
     while len(ops) < n:
         k = r.random()
         base = dict(client="c", table=name)
+        if len(ops) == retype_at:
+            # an attempt to re-type a key attribute of the table through the AddIndex helper (it declares strings): refused
+            ops.append(dict(op="add_index", client="c", table=name, index="byk", hash="g", range=r.choice(kattr)))
         if k < 0.35:
             it = g.item_of(t)
             if r.random() < 0.8: it.update(pick())
@@ -352,8 +357,37 @@ def boundary_walk(g):
     return ops
 
 
+def moving_index_key(g):
+    """an UpdateItem moves an item inside a secondary index (its index key attribute changes: a string, a number or a binary),
+    then the index is read page by page in both directions and in one piece"""
+    r = g.r
+    ty = r.choice(["B", "B", "S", "N"])
+    val = {"B": lambda s: {"B": s}, "S": S, "N": lambda s: N(str(ord(s[0])))}[ty]
+    base = dict(client="c", table="tbl")
+    ops = [dict(op="create_table", client="c", table="tbl", hash=dict(name="h", type="S"), billing="PAY_PER_REQUEST", throughput=True,
+                attrs=[dict(name="p", type="S"), dict(name="g", type=ty)],
+                gsi=[dict(name="gix", hash=dict(name="p"), range=dict(name="g"), throughput=True)])]
+    keys = r.sample(["a", "c", "e", "g", "i"], r.randrange(3, 6))
+    for i, k in enumerate(keys):
+        ops.append(dict(op="put", item={"h": S("k%d" % i), "p": S("P"), "g": val(k)}, **base))
+    for _ in range(r.randrange(1, 3)):
+        i = r.randrange(len(keys))
+        ops.append(dict(op="update", key={"h": S("k%d" % i)}, expr="SET g = :g", names={}, values={":g": val(r.choice(["b", "d", "f", "h", "j", "\x01"]))}, **base))
+    for fwd in r.sample([True, False], 2)[:r.randrange(1, 3)]:
+        rd = dict(op="query", index="gix", keycond="p = :p", names={}, values={":p": S("P")}, forward=fwd, limit=r.choice([1, 2, 3]), **base)
+        ops.append(rd)
+        for _ in range(6):
+            nxt = json.loads(json.dumps(rd)); nxt["esk"] = {"$lek": len(ops) - 1}
+            ops.append(nxt)
+        full = json.loads(json.dumps(rd)); full.pop("limit"); ops.append(full)
+    ops.append(dict(op="scan", index="gix", **base))
+    return ops
+
+
 def page_script(g):
     r = g.r
+    if r.random() < 0.1:
+        return moving_index_key(g)
     if r.random() < 0.2:
         return boundary_walk(g)
     tie = r.random() < 0.3
@@ -526,6 +560,18 @@ def failing_script(g):
         if r.random() < 0.2:
             ops.append(dict(op="update", key=g.key_of(t["schema"]), expr="SET g = :n", names={}, values={":n": N("7")}, **base))
         if r.random() < 0.25:
+            # a read that aborts while it evaluates an item (a type mismatch is an error raised as a panic), forward or
+            # backward, on the table or an index: the next reads see the table as it was
+            bad = r.choice([("begins_with(n, :p)", {":p": S("1")}), ("n > :s", {":s": S("a")}), ("contains(n, :p)", {":p": S("1")}), ("g.x = :p", {":p": S("1")}), ("size(l) > :z", {":z": N("0")})])
+            rd = dict(op="scan", filter=bad[0], names={}, values=dict(bad[1]), **base)
+            if r.random() < 0.6:
+                hv = g.key_of(t["schema"])[t["schema"]["hash"][0]]
+                rd = dict(op="query", keycond="%s = :h" % t["schema"]["hash"][0], filter=bad[0], names={}, values={":h": hv, **bad[1]}, forward=r.random() < 0.4, **base)
+            if t["indexes"] and r.random() < 0.3 and rd["op"] == "scan": rd["index"] = r.choice(t["indexes"])["name"]
+            ops.append(rd)
+            ops.append(dict(op="scan", **base))
+            if r.random() < 0.5: ops.append(dict(op="scan", limit=1, **base))
+        if r.random() < 0.25:
             # a batch with an invalid request at the first, a middle or the last position of one table's list
             good = [dict(put=g.item_of(t)) if r.random() < 0.7 else dict(delete=g.key_of(t["schema"])) for _ in range(r.randrange(2, 5))]
             bad_it = g.item_of(t); bad_it["g"] = N("7")
@@ -664,7 +710,8 @@ def keys_script(g):
 
 
 # ---------------- C09: expressions are checked even when no item is evaluated ----------------
-MALFORMED = ["lvl = = :one AND (", "g != :v", "g >>> :v )) AND", "g = :v AND", "(g = :v", "g = :v )", "g = :v f = :w", "g IN ()",
+MALFORMED = ["contains(g, NOT f)", "contains(g, nosuch(f))", "begins_with(zq, NOT f)", "contains(g, f = :v)", "begins_with(g, nosuch(:v))",
+             "lvl = = :one AND (", "g != :v", "g >>> :v )) AND", "g = :v AND", "(g = :v", "g = :v )", "g = :v f = :w", "g IN ()",
              "g IN ( )", "NOT", "g BETWEEN :v AND", "m. = :v", "g = :v OR", ",", "g :v", "= :v"]
 
 
@@ -858,7 +905,9 @@ def native_script(g):
     for e in base_texts[:2]:
         texts.append(r.choice([e.replace(" ", "  "), " " + e + " ", e.replace(" ", "\t"), e.swapcase() if e.isascii() else e, e.replace(" ", ""),
                                # a character at an end that only LOOKS like white space (no-break space, form feed, vertical tab, NEL)
-                               e + "\u00c2\u00a0", "\x0c" + e, e + "\x0b", "\u00c2\u0085" + e]))
+                               e + "\u00c2\u00a0", "\x0c" + e, e + "\x0b", "\u00c2\u0085" + e,
+                               # a blank INSIDE a word makes another text
+                               e[:1] + " " + e[1:], e.replace("attribute", "attri bute").replace("SET", "S ET") if ("attribute" in e or "SET" in e) else e[:2] + " " + e[2:]]))
     when_activate = r.choice(["before", "after", "before", "never"])
     if when_activate == "before": ops.append(dict(op="activate_native", client="c"))
     for name in tabs: ops.append(dict(op="add_table", client="c", table=name, hash="h", range=""))
@@ -900,6 +949,14 @@ def native_script(g):
             if r.random() < 0.5: ops.append(dict(op="set_interpreter", client="c"))
             else: ops.append(dict(op="activate_native", client="c"))
         if r.random() < 0.3: ops.append(dict(op="get", key={"h": S(r.choice("ab"))}, **base))
+        if r.random() < 0.2:
+            # a registration that arrives late, for a text that has been used before (and fell back): it counts from now on,
+            # and a second registration under the same text replaces the first
+            nid += 1
+            if r.random() < 0.6:
+                ops.append(dict(op="add_matcher", client="c", table=tname, kind=r.choice(["key", "filter", "conditional"]), expr=e, id=nid, verdict=r.random() < 0.5))
+            else:
+                ops.append(dict(op="add_updater", client="c", table=tname, expr=e, id=nid, set={"u": S("late%d" % nid)}))
     return ops
 
 
@@ -991,12 +1048,12 @@ def restrictions_script(g):
             ops.append(dict(op="update", key={"h": S("a"), "r": S("1")}, expr=e, names={}, values=({":v": S("x")} if ":v" in e else {}), **base))
         elif k < 0.5: ops.append(dict(op="put", item={"h": S("a"), "r": S("2")}, cond="attribute_not_exists(%s)" % w, names={}, values={}, **base))
         elif k < 0.62:
-            names = {r.choice(["#a", "#ab", "#a1", "a", "#", "#a-b"]): "g"}
-            used = r.choice(["#a", "#ab", "#a1", "g"])
+            names = {r.choice(["#a", "#ab", "#a1", "a", "#", "#a-b", "#0", "#1a", "#_"]): "g"}
+            used = r.choice(["#a", "#ab", "#a1", "g", "#0", "#1a", "#_"])
             ops.append(dict(op="scan", filter="%s = :v" % used, names=names, values={":v": S("x")}, **base))
         elif k < 0.74:
-            vals = {r.choice([":v", ":vv", ":v1", "v", ":", ":v-1"]): S("x")}
-            used = r.choice([":v", ":vv", ":v1"])
+            vals = {r.choice([":v", ":vv", ":v1", "v", ":", ":v-1", ":0", ":2_", ":_"]): S("x")}
+            used = r.choice([":v", ":vv", ":v1", ":0", ":2_", ":_"])
             ops.append(dict(op="scan", filter="g = %s" % used, names={}, values=vals, **base))
         elif k < 0.80:
             n = r.choice([1, 24, 25, 26, 30])
